@@ -47,6 +47,13 @@ func (t *inProcessTransport) Send(ctx context.Context, e envelope) error {
 }
 
 func (t *inProcessTransport) Receive(ctx context.Context) (envelope, error) {
+	// The envelopes that were sent before the transport was closed are still delivered,
+	// otherwise the last envelope of a session (finished or failed) could be lost.
+	select {
+	case e := <-t.envChan:
+		return e, nil
+	default:
+	}
 	if !t.Connected() {
 		return nil, errors.New("transport is closed")
 	}
@@ -54,6 +61,11 @@ func (t *inProcessTransport) Receive(ctx context.Context) (envelope, error) {
 	case <-ctx.Done():
 		return nil, fmt.Errorf("receive: %w", ctx.Err())
 	case <-t.done:
+		select {
+		case e := <-t.envChan:
+			return e, nil
+		default:
+		}
 		return nil, errors.New("transport was closed while receiving")
 	case e := <-t.envChan:
 		return e, nil
